@@ -44,7 +44,7 @@ Sq(x) == <<x>>
 A1v1 == S("manifest.get", "a1", "v1", "", "")
 
 (* ------------------------------ families ------------------------------- *)
-Singles == {Sq(st) : st \in Simple \cup GuardStmts \cup {ErrorStmt}}
+Singles == {Sq(st) : st \in Simple \cup GuardStmts \cup ErrorStmts}
 
 MProducers == {S(op, r[1], r[2], "", "") : op \in {"manifest.get", "manifest.getList", "manifest.head"},
                                          r \in {<<"a1", "v1">>, <<"a1", "ix">>, <<"lay", "v1">>, <<"lay", "ix">>, <<"b1", "v1">>, <<"a2", "v1">>}}
@@ -101,7 +101,10 @@ Loops == {<<F(l, "1")>> \o b : l \in Locs \cup {"bad"}, b \in LoopBodies1}
          \cup {<<F(l, "1")>> \o b \o <<S("tag.ls", l, "", "", "")>> : l \in {"a1", "lay"}, b \in LoopBodies1}
          \cup {<<F(l, "2")>> \o b \o <<S("tag.ls", l, "", "", "")>> : l \in {"a1", "lay"}, b \in LoopBodies2}
 
-Errors == {<<ErrorStmt, A1v1>>, <<A1v1, ErrorStmt, S("tag.ls", "a1", "", "", "")>>,
+Errors == {<<A1v1, e, S("tag.ls", "a1", "", "", "")>> : e \in ErrorStmts}
+          \cup {<<P(e), S("tag.ls", "a1", "", "", "")>> : e \in ErrorStmts}
+          \cup {<<S("if.head", "a1", t, "", ""), e, S("tag.ls", "a1", "", "", "")>> : t \in {"v1", "none"}, e \in ErrorStmts}
+          \cup {<<ErrorStmt, A1v1>>, <<A1v1, ErrorStmt, S("tag.ls", "a1", "", "", "")>>,
            <<S("image.copy", "a1", "v1", "b1", "new"), ErrorStmt>>, <<S("tag.ls", "lay", "", "", ""), S("tag.delete", "lay", "v1", "", ""), ErrorStmt, S("tag.ls", "lay", "", "", "")>>}
 
 R4 == {S("tag.ls", "a1", "", "", ""), S("manifest.getList", "lay", "ix", "", ""), S("image.config", "a1", "v1", "", ""), S("manifest.head", "b1", "new", "", "")}
@@ -154,7 +157,8 @@ FailInside == {<<S("manifest.getList", "a1", "ix", "", ""), S("image.config", "$
                Sq(S("image.exportTar", "a1", "v1", "baddir", "")), Sq(S("image.exportTar", "a1", "none", "out", "")),
                Sq(S("image.copy", "lay", "none", "a1", "new")),
                <<F("a1", "2"), S("manifest.getList", "@", "", "", ""), S("m:config", "", "", "", "")>>}
-FailError == {Sq(ErrorStmt), <<S("tag.ls", "a1", "", "", ""), ErrorStmt>>}
+\* every way of aborting, alone and after some registry work
+FailError == {Sq(e) : e \in ErrorStmts} \cup {<<S("tag.ls", "a1", "", "", ""), e>> : e \in ErrorStmts}
 FailScripts == FailBadArg \cup FailAbsent \cup FailNil \cup FailInside \cup FailError
 \* with tmo = "short": the call on the tag `slow` is the only one of the first script and is cut
 \* off by its timeout (no other statement runs under the short timeout: no dependence on speed)
